@@ -621,6 +621,30 @@ fn gen_vsign(ctx: &mut Ctx) {
         let res = ctx.case(line.clone(), true, "many-buffered-bytes");
         ctx.monitor(!res.contains("PANIC"), "C12-no-panic", "VSL 3 M <262 chunks of 255 bytes at non-zero offsets>", &res);
     }
+    // a runaway of exactly `cap` buffered bytes (no offset-0 chunk), then exactly one page's worth of bytes, then the count:
+    // what was buffered since the last offset 0 is not a page, so nothing is stored -- whatever the buffer's size
+    for cap in [4096usize, 8192, 16384, 32768, 65520, 65535, 65536, 65552, 131072] {
+        let mut msgs = vec!["RO.3.RCF".to_string(), format!("SD.0.{}", config_blocks()[2].0), "DC.1".to_string(), "RO.3.RPX".to_string()];
+        let mut n = 0usize;
+        let mut left = cap;
+        while left > 0 {
+            let len = left.min(255);
+            msgs.push(format!("SD.{}.{}", 16 + (n % 5) * 16, chunk(len, n)));
+            left -= len;
+            n += 1;
+        }
+        msgs.push(format!("SD.16.{}", hex_of_bytes(&[9, 0x10, 0, 0, 1, 2, 3, 4, 5, 6, 7, 8, 0xFF, 0xFF, 0xFF, 0xFF])));
+        n += 1;
+        msgs.push(format!("DC.{}", n % 65536));
+        msgs.push("QS.3".to_string());
+        msgs.push("PC.3".to_string());
+        msgs.push("QS.3".to_string());
+        let line = format!("VSL 3 M {}", msgs.join(" "));
+        let res = ctx.case(line, true, "runaway-then-one-page");
+        let last = res.split(" # ").next().unwrap_or("").split(' ').filter(|x| !x.is_empty()).last().unwrap_or("").to_string();
+        let stored = last.split('/').nth(1).and_then(|o| o.split('.').nth(2)).unwrap_or("?").to_string();
+        ctx.monitor(stored == "0", "C13-stored-pages", &format!("VSL 3 M <{} bytes at non-zero offsets, then 16 bytes (one page's worth), then the count>", cap), &format!("{} page(s) stored: {}", stored, last));
+    }
     // page lists of 255, 256, 257 and 512 one-chunk pages in one transfer, then the whole flip cycle (show, settle, load
     // next, settle, show again)
     for npages in [255usize, 256, 257, 512] {
